@@ -99,6 +99,17 @@ def s2_tasks(tier):
         s2.append(dict(kind='consttarget', base=base))
     # mnemonics written in upper / mixed case (accepted by the parser): sizes, labels behind them and targets must be those of the lower-case spelling
     s2.append(dict(kind='mncase'))
+    # span programs at the edges of every transfer's reach, in a program that ALSO defines some unrelated name as constant and as label
+    for ref in ('beq8', 'bne56', 'jal0', 'j', 'beqz9', 'c.jB', 'c.beqzB', 'call'):
+        for d in ('fwd', 'bwd'):
+            for win in progs.WINDOWS_QUICK:
+                for ch in kernel.chunks(list(win), 8):
+                    s2.append(dict(kind='shadowspan', ref=ref, dir=d, gaps=ch))
+    # two transfers to ONE label at different distances (a decision taken for the first must not be reused for the second): the near one 0..3 items away, the far one around every reach edge
+    for ref in ('beq8', 'bne56', 'jal0', 'j', 'beqz9', 'jal1'):
+        for win in progs.WINDOWS_QUICK:
+            for ch in kernel.chunks(list(win), 8):
+                s2.append(dict(kind='tworef', ref=ref, gaps=ch))
     return s2
 
 
@@ -150,6 +161,29 @@ def s2_programs(task):
             yield [beq('B'), L.label('A'), it, it, L.label('B'), tail, L.call('A')]
             for it2 in items:
                 yield [L.label('A'), it, it2, L.label('B'), jal('B'), jal('A')]
+        return
+    if task.get('kind') == 'shadowspan':
+        sym = {x[0]: x for x in progs.XFER}[task['ref']]
+        addi = progs.I('addi', rd=8, rs1=8, imm=1)
+        for gapn in task['gaps']:
+            for n in (1, 2, 3):
+                for between in ([], [addi]):
+                    pre = [L.const('QQ', '7'), L.label('QQ')] + [addi] * n
+                    yield progs.span_program(sym[1], task['dir'], between, gapn, pre=pre)
+                    yield progs.span_program(sym[1], task['dir'], between + [progs.I('addi', 'mv x8, x9', rd=8, rs1=9, imm=0)], gapn, pre=[L.const('QQ', '7'), L.label('QQ'), L.li(9, 1)] + [addi] * (n - 1))
+        return
+    if task.get('kind') == 'tworef':
+        sym = {x[0]: x for x in progs.XFER}[task['ref']]
+        addi = progs.I('addi', rd=8, rs1=8, imm=1)
+        tail = progs.I('add', rd=5, rs1=6, rs2=7)
+        for gapn in task['gaps']:
+            g = [L.gap(gapn)]
+            for k in (0, 1, 3):
+                near = [addi] * k
+                # backward: A: tail near ref(A) gap [align 2] ref(A)      forward: ref(A) gap [align 2] ref(A) near A: tail
+                yield [L.label('A'), tail] + near + [sym[1]('A')] + g + [L.align(2), sym[1]('A')]
+                yield [sym[1]('A')] + g + [L.align(2), sym[1]('A')] + near + [L.label('A'), tail]
+                yield [addi, L.label('A'), tail] + near + [sym[1]('A')] + g + [L.align(2), addi, sym[1]('A')]
         return
     if task.get('kind') == 'consttarget':
         base = task['base']
